@@ -151,16 +151,16 @@ def assumptions(props_vo, names, workdir):
 
 # --------------------------------------------------------------------------
 # running cases
-def _shard(lines, n):
-    k = max(1, min(n, (len(lines) + 199) // 200))
+def _shard(lines, n, per_shard=200):
+    k = max(1, min(n, (len(lines) + per_shard - 1) // per_shard))
     return [lines[i::k] for i in range(k)], k
 
 
-def _run_sharded(binary, lines, timeout):
+def _run_sharded(binary, lines, timeout, per_shard=200):
     """Runs a line-in/line-out worker over the lines with up to NPROC processes, preserving order."""
     if not lines:
         return []
-    shards, k = _shard(lines, NPROC)
+    shards, k = _shard(lines, NPROC, per_shard)
     procs = []
     for sh in shards:
         p = subprocess.Popen([binary], stdin=subprocess.PIPE, stdout=subprocess.PIPE, stderr=subprocess.PIPE, text=True,
@@ -200,7 +200,7 @@ def _limits():
     resource.setrlimit(resource.RLIMIT_CORE, (0, 0))
 
 
-def run_impl(lines, timeout=240):
+def run_impl(lines, timeout=240, per_shard=200):
     """lines: '<suite> <sx>'; routed to the debug or release binary by the case's profile field."""
     idx = {0: [], 1: []}
     for i, l in enumerate(lines):
@@ -208,7 +208,7 @@ def run_impl(lines, timeout=240):
     out = [None] * len(lines)
     for prof in (0, 1):
         sub = [lines[i] for i in idx[prof]]
-        res = _run_sharded(IMPL[prof], sub, timeout)
+        res = _run_sharded(IMPL[prof], sub, timeout, per_shard)
         # a worker that died: rerun the remaining cases one process per case to attribute the abort
         res = _resolve_aborts(IMPL[prof], sub, res, timeout)
         for i, r in zip(idx[prof], res):
@@ -370,7 +370,7 @@ def run_checker(checker, cases, outs):
 def evaluate_stream(ctx, st):
     """Differential run of one stream + property predicate on the implementation's own outputs."""
     lines = ["%s %s" % (st.suite, c) for c in st.cases]
-    impl = run_impl(lines)
+    impl = run_impl(lines, per_shard=getattr(st, "per_shard", 200))
     model, lines = resolve_needs(lines)
     st.cases = [l.split(" ", 1)[1] for l in lines]
     verdicts = run_checker(st.checker, st.cases, impl) if st.checker else ["1"] * len(lines)
